@@ -1,5 +1,6 @@
 import DiscretModel.Model.Proto
 import DiscretModel.Model.Writer
+import DiscretModel.Model.Pipeline
 /-
 Model driver for engine `writer` (C13 and C16), same line protocol as `dv-writer run`.
 
@@ -54,6 +55,7 @@ def msg? (tok : String) : Option Msg :=
   | [k, body] =>
     if k = "ed" then (splitPair? body "-").map fun (a, b) => { kind := .edges, stmts := [.aux (.edge a b)] }
     else if k = "rm" then body.toNat?.map fun i => { kind := .roomMutation, stmts := [.aux (.room i)] }
+    else if k = "rs" then body.toNat?.map fun i => { kind := .roomMutationStream, stmts := [.aux (.room i)] }
     else if k = "wr" then body.toNat?.map fun i => { kind := .write, stmts := [.aux (.conf i)] }
     else none
   | ["rc"] => some { kind := .computeDailyLog, stmts := [.recompute] }
@@ -124,6 +126,7 @@ def step13 (s : Sys) (toks : List String) : Sys × String :=
       | none => (s, "bad-op")
       | some [] => (s, "bad-op")
       | some ms =>
+        if !ms.all (fun m => m.validB T) then (s, "bad-op") else
         match kv? rest "crash" with
         | some c =>
           match crash? c with
@@ -150,12 +153,108 @@ def step13 (s : Sys) (toks : List String) : Sys × String :=
 end WriterDriver
 
 namespace PipelineDriver
-/-- placeholder until the C16 model exists -/
+open Discret.Pipeline
+
+/- C16:
+  mut i=<i> key=<k> [set=<f>:<v>,…] [room=<n>] [add=<k>,…] [pet=<k>|null]  -> "mut <i>"   (i = number of mutations declared so far)
+  r i=<i>   -> "read ok" | "read err"        v i=<i> -> "val ok"        w i=<i>,… -> "acks=o…" (the whole validated queue)
+  state     -> "rows=<k>:<room>:<mdate>:<f>=<v>;… refs=<src>><label>:<dest>,…"   (rows 1..4)
+  stream n=<K> -> "stream done" (public-API run of the harness; nothing to predict)
+-/
 structure St where
-  n : Nat
-def St.empty : St := ⟨0⟩
-def startCase (_ : List String) : Option St := none
-def step (s : St) (_ : List String) : St × String := (s, "bad-op")
+  ops : List Op
+  st : Discret.Pipeline.St
+
+def St.empty : St := ⟨[], start init⟩
+
+def startCase (_ : List String) : Option St := some St.empty
+
+def pairs? (s : String) : Option (List (Nat × Nat)) :=
+  ((s.splitOn ",").filter (· ≠ "")).mapM fun fv =>
+    match fv.splitOn ":" with
+    | [a, b] => match a.toNat?, b.toNat? with
+      | some x, some y => some (x, y)
+      | _, _ => none
+    | _ => none
+
+def op? (toks : List String) : Option Op :=
+  match nat? toks "key" with
+  | none => none
+  | some key =>
+    let sets := match kv? toks "set" with
+      | some s => pairs? s
+      | none => some []
+    let room := match kv? toks "room" with
+      | some r => r.toNat?.map some
+      | none => some none
+    let adds := match kv? toks "add" with
+      | some a => ((a.splitOn ",").filter (· ≠ "")).mapM String.toNat?
+      | none => some []
+    let pet : Option (Option (Option Nat)) := match kv? toks "pet" with
+      | some "null" => some (some none)
+      | some p => p.toNat?.map fun k => some (some k)
+      | none => some none
+    match sets, room, adds, pet with
+    | some sets, some room, some adds, some pet =>
+      if sets.all (fun fv => fv.1 = 1 ∨ fv.1 = 2) ∧ (room = none ∨ room = some 1 ∨ room = some 2) then
+        some { key := key, sets := sets, room := room, adds := adds, pet := pet }
+      else none
+    | _, _, _, _ => none
+
+def insertBy {α : Type} (lt : α → α → Bool) (x : α) : List α → List α
+  | [] => [x]
+  | h :: t => if lt h x then h :: insertBy lt x t else x :: h :: t
+
+def stateStr (db : Db) : String :=
+  let keys := [1, 2, 3, 4]
+  let rows := keys.filterMap fun k => (db.rows k).map fun r =>
+    s!"{k}:{r.room}:{r.mdate}:" ++ joinWith ";" (r.vals.map fun fv => s!"{fv.1}={fv.2}")
+  let refs := keys.flatMap fun k =>
+    ((db.refs k).foldr (insertBy fun (a b : Nat × Nat) => a.1 < b.1 ∨ (a.1 = b.1 ∧ a.2 < b.2)) []).map
+      fun r => s!"{k}>{r.1}:{r.2}"
+  "rows=" ++ joinWith "," rows ++ " refs=" ++ joinWith "," refs
+
+def step (s : St) (toks : List String) : St × String :=
+  match toks with
+  | "mut" :: rest =>
+    match nat? rest "i", op? rest with
+    | some i, some op => if i = s.ops.length then ({ s with ops := s.ops ++ [op] }, s!"mut {i}") else (s, "bad-op")
+    | _, _ => (s, "bad-op")
+  | ["r", a] =>
+    match nat? [a] "i" with
+    | none => (s, "bad-op")
+    | some i =>
+      match s.ops[i]? with
+      | none => (s, "bad-op")
+      | some op =>
+        if s.st.pend.any (fun e => e.1 = i) || s.st.done.any (fun e => e.1 = i) then (s, "bad-op")
+        else
+          let st' := Discret.Pipeline.step s.ops s.st (.r i)
+          match read s.st.db op (s.st.clock + 1) with
+          | some _ => ({ s with st := st' }, "read ok")
+          | none => ({ s with st := { st' with err := false } }, "read err")
+  | ["v", a] =>
+    match nat? [a] "i" with
+    | none => (s, "bad-op")
+    | some i =>
+      if s.st.pend.any (fun e => e.1 = i) && !s.st.queue.contains i then
+        ({ s with st := Discret.Pipeline.step s.ops s.st (.v i) }, "val ok")
+      else (s, "bad-op")
+  | ["w", a] =>
+    match natList? [a] "i" with
+    | none => (s, "bad-op")
+    | some [] => (s, "bad-op")
+    | some l =>
+      if l = s.st.queue then
+        let st' := l.foldl (fun st i => Discret.Pipeline.step s.ops st (.w i)) s.st
+        if st'.err then (s, "bad-op") else ({ s with st := st' }, "acks=" ++ String.ofList (l.map fun _ => 'o'))
+      else (s, "bad-op")
+  | ["state"] => (s, stateStr s.st.db)
+  | ["stream", a] => match nat? [a] "n" with
+    | some _ => (s, "stream done")
+    | none => (s, "bad-op")
+  | _ => (s, "bad-op")
+
 end PipelineDriver
 
 structure DState where
